@@ -38,6 +38,12 @@ theorem hand_on (e : Nat) :
     handOn (e, .content) = (none, some e) ∧ handOn (e, .parent) = (none, some e) ∧ handOn (e, .default) = (none, none) :=
   ⟨rfl, rfl, rfl, rfl, rfl⟩
 
+/-- nested imports: an override is sticky, otherwise own sources first, then the importing sheet's encoding -/
+theorem enc_nested (o : Nat) (h1 e1 p1 h2 e2 : Option Nat) (u : Nat) :
+    chooseNested (some o) h1 e1 p1 h2 e2 u = (o, .override) ∧
+    (chooseNested none h1 e1 p1 h2 e2 u).1 = ((h2.or e2).or ((h1.or e1).or p1)).getD u :=
+  ⟨nested_override o h1 e1 p1 h2 e2 u, nested_first h1 e1 p1 h2 e2 u⟩
+
 /-- whatever the fetcher does, loading ends: loaded for text / decodable bytes, an empty sheet otherwise -/
 theorem fetch_contained (f : Fetch) : setHref true f = some (if loads f then .loaded else .failedEmpty) := contained f
 
